@@ -183,7 +183,8 @@ def generate(rng, tier):
         cs |= set(rng.sample(meta, min(150, len(meta))))
         cs |= set(rng.sample(range(last.data_pos, n), min(250, n - last.data_pos)))
         cuts = sorted(cs)
-    return {'spec': spec, 'ops': reqs, 'cuts': cuts, 'short_seed': rng.getrandbits(32) if rng.random() < 0.3 else None}
+    return {'spec': spec, 'ops': reqs, 'cuts': cuts, 'short_seed': rng.getrandbits(32) if rng.random() < 0.3 else None,
+            'drop_file': rng.random() < 0.12}
 
 
 def daqmx_sig(spec):
@@ -256,6 +257,11 @@ def execute(case):
         except Exception as exc:
             res.violations.append(V('C11.read-raises', '%s: %s' % (type(exc).__name__, exc), exc=type(exc).__name__))
             return res
+        if case.get('drop_file'):
+            import gc
+            lazy = ops.KeptChannels(lazy, w)      # the caller keeps the channel objects only
+            gc.collect()
+            res.probe('file-object-dropped')
         fulls = {}
         for path, ch in w.chans.items():
             if ch.type != 'daqmx':
